@@ -102,6 +102,11 @@ func (tb *TB) isLow(t *Term) bool {
 	return false
 }
 
+// rawUlt builds a <u b without any simplification.
+func (tb *TB) rawUlt(a, b *Term) *Term {
+	return tb.mk(&Term{Op: "bvult", Sort: BoolSort, Args: []*Term{a, b}})
+}
+
 func isHighConst(t *Term) bool {
 	return t.Op == "bv" && t.Sort.W == 32 && t.Val.Cmp(big.NewInt(lowLimit)) >= 0
 }
